@@ -374,3 +374,35 @@ theorem rename_total_after_check {δ : Type} {le : α → α → Bool} (ho : Lin
     simp [hf]
 
 end Fsic.C18
+
+/-! ## Concrete instances that meet the hypotheses used above -/
+namespace Fsic.C18
+open Fsic.Alias
+
+/-- Python compares `str` by code point, lexicographically — as Lean's `String` order does. -/
+def strLe (x y : String) : Bool := decide (x ≤ y)
+
+theorem linOrd_strLe : LinOrd strLe :=
+  ⟨fun a b => by simpa [strLe] using String.le_total a b,
+   fun a b c h1 h2 => by simp [strLe] at *; exact String.le_trans h1 h2,
+   fun a b h1 h2 => by simp [strLe] at *; exact String.le_antisymm h1 h2⟩
+
+def exE : ValOps String (List Nat) Nat where
+  assign := fun v p => .ok (v.map fun _ => p)
+  readAt := fun v ix => match v[ix]? with | some x => .ok x | none => .error (.value 0)
+  writeAt := fun v ix p => .ok (v.set ix p)
+  raw := fun _ _ _ v => v
+
+def exS : Store String (List Nat) Nat := ⟨false, [("Y", [1, 2]), ("C", [3, 4])], [("note", 7)]⟩
+
+example : chained [("GDP", "Y"), ("income", "Y")] = false := by decide
+example : Inv [("GDP", "Y"), ("income", "Y")] exS := by unfold Alias.Inv; decide
+example : (run (aliased exE [("GDP", "Y"), ("income", "Y")]) exS
+    [.setAt "GDP" 0 9, .setAttr "income" 5, .setAt "income" 1 8, .replaceValues [("GDP", 6)], .setAttr "memo" 1]).1.vars
+    = [("Y", [6, 6]), ("C", [3, 4])] := by decide
+example : (run (aliased exE [("GDP", "Y"), ("income", "Y")]) exS [.setAttr "memo" 1, .setAttr "GDP" 2]).1.attrNames
+    = ["note", "memo"] := by decide
+example : WF [("GDP", "Y"), ("income", "Y")] ∧ prefCheck [("GDP", "Y"), ("income", "Y")] ["income"] = true := by
+  unfold WF keys; decide
+
+end Fsic.C18
